@@ -310,6 +310,18 @@ def _i2(model: Model, rep: Report):
     if seps and bad is None:
         raise Unsupported(f"C19.I2: the formula looks into the qubit names (separators {seps}); the table of equality patterns does not represent all names and no "
                           f"counter-example was found among {names}: {show(formula)}")
+    # the qubits of an edge are ANY identifiers of the qubit interface: a class test on them narrower than the declared interface makes equal edges unequal (even e == e)
+    qi = model.maybe_cls("IQubitID")
+    narrow = []
+    for at in inst:
+        if at[1] in (S, O) or not isinstance(at[2], str):
+            continue
+        k_ = model.maybe_cls(at[2])
+        if k_ is not None and qi is not None and k_ is not qi and k_.is_subclass_of(qi):
+            narrow.append(at)
+    rep.check(not narrow, "C19.I2", construct + "[any qubit identifier]", loc, found="; ".join(show(a) for a in narrow) or "no class test on the qubit identifiers narrower than IQubitID",
+              required="qubits are compared through the IQubitID interface", what="edge equality (through contains) only recognises qubits of one concrete identifier class: an edge "
+              "whose qubits are another IQubitID implementation is not equal to an equal edge, not even to itself: " + "; ".join(show(a) for a in narrow), detail="narrow-class")
     rep.check(bad is None, "C19.I2", construct, loc, found=show(formula),
               required="isinstance(other, IEdgeID) and {self.q0, self.q1} == {other.q0, other.q1}",
               what=f"edge equality is not the unordered-pair equality: {bad}", detail="relation",
@@ -482,6 +494,18 @@ def _i4(model: Model, rep: Report):
             rep.fail("C19.I4", construct, fn.loc, found=show(v1), required="first occurrences in input order",
                      what="de-duplication goes through set(input): the order of the input is lost", detail="shape")
             return
+        if v1 is not None and not loops:
+            from .common import devar as _dv
+            v2 = _dv(v1)
+            keyed = subterms(v2, lambda y: y[0] in ("dictcomp", "dict") or (y[0] == "comp" and y[1] == "set") or
+                             (y[0] == "call" and y[1] in ("set", "frozenset", "dict", ("global", "set"), ("global", "dict"))))
+            resorted = subterms(v2, lambda y: y[0] == "values" or (y[0] == "call" and (y[1] in ("sorted", ("global", "sorted")) or (isinstance(y[1], tuple) and y[1][0] == "attr" and y[1][2] in ("values", "sort")))))
+            if keyed and resorted and subterms(v2, lambda y: y == param):
+                rep.fail("C19.I4", construct, fn.loc, found=show(v1)[:160], required="first occurrences, in the order of a single pass over the input",
+                         what="the result is re-assembled from a table keyed by the elements (sorted by a stored position / the table's values): a position table keeps the LAST "
+                              "position of a repeated element, a value table its LAST equal object, and a set picks representatives by hash while `index` searches by the relaxed "
+                              "equality -- the first occurrences in input order are not what comes out", detail="shape")
+                return
         raise AnalysisError(f"unique_in_order: neither the accumulator loop, the comprehension idiom nor list(dict.fromkeys(..)) ({len(loops)} loops; value {show(v1)[:100] if v1 else None}): shape not read")
     lp = loops[0]
     rep.check(lp.term == param, "C19.I4", construct + "[domain]", fn.loc, found=show(lp.term), required=show(param),
